@@ -862,7 +862,7 @@ func init() {
 				}})
 			}
 			// the same spaces with every id shifted to around 2^16 and 2^31 (auto ids too)
-			for _, base := range vIDBases[:2] {
+			for _, base := range vIDBases[:3] {
 				base := base
 				sh = append(sh, vShard{Name: fmt.Sprintf("bigids/%d", base), Run: func(c *vCtx) {
 					vIDBase = base
@@ -870,6 +870,9 @@ func init() {
 					cfg := vHybCfgs()[0]
 					vBFS(c, &vHybSys{c: c, cfg: cfg, cfgS: cfg.String() + vIDBaseTag()}, 3)
 					for _, rc := range vC06ReaddCfgs() {
+						if base == math.MaxUint32 && rc.Kind == "hnsw" {
+							continue // for an HNSW Add id 0 means "assign an id": not an explicit id
+						}
 						vBFS(c, &vReaddSys{c: c, kind: rc.Kind, cfg: rc, cfgS: "readd " + rc.String() + vIDBaseTag()}, 4)
 					}
 				}})
